@@ -144,6 +144,7 @@ def run(ctx):
     sets = W.make_sets(ctx, ctx.pick(2, 24), "c02")
     for item in sets:
         run_set(ctx, item, ctx.pick(5, 40))
+    run_set(ctx, W.big_union_set(ctx), ctx.pick(5, 40))
     ctx.sample({"type": "cov.DOuter.1.0", "input": "truncated inside the delimiter header of field 'one'", "oracle": "refmodel.decode + pydsdl.deserialize cross-check"})
     ctx.require("des_value_ok", 2000)
     ctx.require("error_reported_when_expected", 200)
